@@ -6,6 +6,8 @@
 //! docs: [{"kind":"D"|"V"}]  (D on disk with text 0, V workspace uri not on disk)
 //! hist: ["open",doc,k] ["change",doc,k] ["close",doc] ["delete",doc] (watched-files DELETED event)
 //!       ["touch",doc] (watched-files CHANGED event) ["sleep",ms] ["reload"]
+//!       ["openbig",doc,k] (didOpen of a 2000-line buffer whose diagnosis takes a measurable time D, calibrated
+//!       at start-up) ["sleepcal",num,den] (sleep interval + D*num/den: lands inside that diagnosis)
 //! obs : per doc {"open": k|null, "analysed": k|null, "published": n|null (number of items of the LAST
 //!       publishDiagnostics for the uri, null = never published), "fresh": n|null (items of a
 //!       textDocument/diagnostic pull now = a fresh diagnosis of the current content; null = file unknown),
@@ -33,6 +35,15 @@ fn text_of(k: u64) -> String {
         _ => format!("---@type string\nlocal t{k} = {k}\nlocal unused_{k} = undefined_other_{k}\nreturn t{k}\n"),
     }
 }
+/// a big buffer (first line as in text_of, so id_of works) with one undefined global per line
+fn big_text(k: u64) -> String {
+    let mut s = format!("local t{k} = {k}\n");
+    for i in 0..2000 {
+        s.push_str(&format!("local v{i}_{k} = undefined_global_{i}_{k}\n"));
+    }
+    s.push_str(&format!("return t{k}\n"));
+    s
+}
 fn id_of(s: &str) -> u64 {
     let r = s.strip_prefix("---@type string\n").unwrap_or(s);
     r.strip_prefix("local t").and_then(|r| r.split(' ').next()).and_then(|n| n.parse().ok()).unwrap_or(999_999)
@@ -46,6 +57,8 @@ struct Ctx {
     next_id: i32,
     version: i64,
     interval: u64,
+    /// calibrated diagnosis time of a big buffer (ms)
+    big_ms: u64,
     /// uri -> (number of publishes, last published items)
     published: HashMap<String, (u64, Vec<Value>)>,
     responses: Vec<Response>,
@@ -122,9 +135,20 @@ fn start(args: &Args, need_d: usize) -> Ctx {
     let mut srv = MemServer::start(&root, caps());
     assert!(srv.wait_ready(1), "server did not become ready");
     srv.take_inbox();
-    let mut cx = Ctx { srv, root, pool_d, fresh: 0, next_id: 10, version: 1, interval, published: HashMap::new(), responses: Vec::new(), last_msg: Instant::now() };
+    let mut cx = Ctx { srv, root, pool_d, fresh: 0, next_id: 10, version: 1, interval, big_ms: 0, published: HashMap::new(), responses: Vec::new(), last_msg: Instant::now() };
     // the initial workspace diagnostics
     pump_for(&mut cx, Duration::from_millis(1500));
+    // calibration: how long does the diagnosis of a big unsaved buffer take?
+    let u = format!("{}/calib_big.lua", cx.srv.root_uri);
+    cx.srv.send_notif("textDocument/didOpen", json!({"textDocument": {"uri": u, "languageId": "lua", "version": 1, "text": big_text(1)}}));
+    let _ = request(&mut cx, "verif/task", json!({"mode": "ok", "ms": 0}), Duration::from_secs(60)); // the inline didOpen has been applied
+    let t_applied = Instant::now();
+    while cx.published.get(&u).map(|p| p.1.len()).unwrap_or(0) == 0 && t_applied.elapsed() < Duration::from_secs(60) {
+        pump(&mut cx, Duration::from_millis(10));
+    }
+    cx.big_ms = (t_applied.elapsed().as_millis() as u64).saturating_sub(interval);
+    cx.srv.send_notif("textDocument/didClose", json!({"textDocument": {"uri": u}}));
+    pump_for(&mut cx, Duration::from_millis(300));
     cx
 }
 
@@ -141,6 +165,12 @@ fn gen_history(rng: &mut Rng, interval: u64) -> (Vec<Value>, Vec<Value>) {
     let docs: Vec<Value> = (0..nd).map(|_| json!({"kind": if rng.chance(1, 2) { "D" } else { "V" }})).collect();
     let mut hist = Vec::new();
     let mut k = 1u64;
+    if rng.chance(1, 8) {
+        // close an unsaved big buffer while its diagnosis is in flight
+        let docs = vec![json!({"kind": "V"})];
+        let hist = vec![json!(["openbig", 0, 1]), json!(["sleepcal", rng.range(2, 6), 8]), json!(["close", 0])];
+        return (docs, hist);
+    }
     let with_reload = rng.chance(1, 6);
     for step in 0..rng.range(3, 14) {
         let d = rng.below(nd);
@@ -198,8 +228,20 @@ fn run_history(cx: &mut Ctx, docs: &[Value], hist: &[Value]) -> Vec<Value> {
                 reload = true;
             }
             "sleep" => pump_for(cx, Duration::from_millis(h[1].as_u64().unwrap_or(1))),
+            "openbig" => {
+                cx.srv.send_notif("textDocument/didOpen", json!({"textDocument": {"uri": u.unwrap(), "languageId": "lua", "version": cx.version, "text": big_text(h[2].as_u64().unwrap_or(1))}}));
+                // wait until the inline didOpen has been applied, so that the next sleep is relative to it
+                let _ = request(cx, "verif/task", json!({"mode": "ok", "ms": 0}), Duration::from_secs(60));
+            }
+            "sleepcal" => {
+                let ms = cx.interval + cx.big_ms * h[1].as_u64().unwrap_or(1) / h[2].as_u64().unwrap_or(2).max(1);
+                pump_for(cx, Duration::from_millis(ms));
+            }
             _ => {}
         }
+    }
+    if hist.iter().any(|h| h[0] == "openbig") {
+        pump_for(cx, Duration::from_millis(cx.big_ms + 200));
     }
     // quiescence: no edits pending, the debounce intervals have passed, nothing arrives any more
     let settle = Duration::from_millis(3 * cx.interval + 300);
@@ -333,7 +375,7 @@ fn main() {
                 }
             }
             writeln!(out, "{}", json!({"summary": {"histories": cases.len(), "corpus": ncorpus, "distinct_nontrivial": distinct.len(), "ops": dist,
-                "publishes_observed": npub, "edits_inside_a_pending_debounce_window": overlapping, "interval_ms": interval, "violations": nviol}})).unwrap();
+                "publishes_observed": npub, "edits_inside_a_pending_debounce_window": overlapping, "interval_ms": interval, "big_buffer_diagnosis_ms": cx.big_ms, "violations": nviol}})).unwrap();
             let _ = std::fs::remove_dir_all(&cx.root);
             out.flush().unwrap();
             std::process::exit(0);
